@@ -77,6 +77,15 @@ def check(run):
     ok = got.get('base_s', ('',))[0] == '_CFFI_F_EXTERNAL' and got.get('$base_pt', ('',))[0] == '_CFFI_F_EXTERNAL' and \
         got.get('base_s')[1:] == ('-1', '0') and got.get('user_s', ('',))[0] == '_CFFI_F_CHECK_FIELDS'
     run.ob('X2/generated-including-module-marks-shared-structs-external', 'p_inc_user', '_cffi_struct_unions[] of a module that includes another', ok, None, str(got))
+    # enums: the same sharing needs the same mechanism -- an included enum must not be re-emitted as a local one
+    ec = rc.find('Recompiler._enum_ctx')
+    consults = any(isinstance(n, (ast.Compare,)) and '_included_declarations' in u(n) for n in ast.walk(ec))
+    em = re.search(r'_cffi_enums\[\] = \{(.*?)\n\};', t, re.S)
+    re_emitted = bool(em and '"base_e"' in em.group(1))
+    run.ob('X2/included-enums-are-not-rebuilt-by-the-including-module', 'Recompiler._enum_ctx', 'an enum that comes from ffi.include() is referenced, not re-emitted',
+           consults and not re_emitted, rc.where(ec),
+           'the generator never consults _included_declarations for enums and the including probe p_inc_user re-emits `enum base_e` in its own _cffi_enums[]: '
+           'the including module builds a second ctype object for it')
     # X3
     tu = backend_tu()
     fn = '_realize_c_struct_or_union'
